@@ -88,6 +88,8 @@ def call(interp, fr, st, pc, path, fn, r, args, t):
     if h is None:
         h = _prim_ops_dispatch(path)
     if h is None:
+        h = _iter_generic_dispatch(path)
+    if h is None:
         for pref, hh in PREFIX:
             if path.startswith(pref):
                 h = hh
@@ -1151,6 +1153,8 @@ TABLE = {
     "core::num::<impl usize>::wrapping_sub": wrapping_sub,
     "std::cmp::min": cmp_min,
     "std::cmp::max": cmp_max,
+    "std::cmp::Ord::min": cmp_min,
+    "std::cmp::Ord::max": cmp_max,
     "core::num::<impl usize>::count_ones": count_ones,
     "core::num::<impl u32>::count_ones": count_ones,
     "core::num::<impl u64>::count_ones": count_ones,
@@ -2489,6 +2493,126 @@ TABLE.update({
     "std::option::Option::<T>::unwrap": option_unwrap,
     "std::result::Result::<T, E>::expect": result_unwrap,
 })
+
+
+# ---------------------------------------------------------------------------------- generic consumers
+def _drive(i, fr, st, pc, src, init, step, finish):
+    """run a modelled iterator to exhaustion (or an early stop).  step(state, pc, acc, item) -> list of
+    (state, pc, acc', stop?) ; finish(state, pc, acc) -> value.  The iterator behind a &mut reference is written back."""
+    itv = i.read_ptr(st, src) if isinstance(src, Ptr) else src
+    outs = []
+    work = [(st, pc, itv, init)]
+    while work:
+        s, p, cur, acc = work.pop()
+        subs, others = iter_next_multi(i, fr, s, p, cur)
+        outs.extend(others)
+        for s1, p1, cur2, item in subs:
+            if item is None:
+                if isinstance(src, Ptr):
+                    i.write_ptr(s1, src, cur2)
+                outs.append(Outcome("return", s1, p1, finish(s1, p1, acc)))
+                continue
+            for s2, p2, acc2, stop in step(s1, p1, acc, item):
+                if stop:
+                    if isinstance(src, Ptr):
+                        i.write_ptr(s2, src, cur2)
+                    outs.append(Outcome("return", s2, p2, finish(s2, p2, acc2)))
+                else:
+                    work.append((s2, p2, cur2, acc2))
+        if len(work) + len(outs) > i.max_paths:
+            raise Undecided("path budget in an iterator consumer")
+    return outs
+
+
+def it_fold(i, fr, st, pc, a, t, fn, r):
+    src, init, clos = a
+    other = []
+
+    def step(s, p, acc, item):
+        res = []
+        for o in call_closure(i, fr, s, p, clos, [acc, item]):
+            if o.kind != "return":
+                other.append(o)
+            else:
+                res.append((o.state, o.pc, o.value, False))
+        return res
+    return _drive(i, fr, st, pc, src, init, step, lambda s, p, acc: acc) + other
+
+
+def it_for_each(i, fr, st, pc, a, t, fn, r):
+    src, clos = a
+    other = []
+
+    def step(s, p, acc, item):
+        res = []
+        for o in call_closure(i, fr, s, p, clos, [item]):
+            if o.kind != "return":
+                other.append(o)
+            else:
+                res.append((o.state, o.pc, acc, False))
+        return res
+    return _drive(i, fr, st, pc, src, UNIT, step, lambda s, p, acc: UNIT) + other
+
+
+def it_search(kind):
+    """position / find / find_map / last / take the first element satisfying the closure"""
+    def f(i, fr, st, pc, a, t, fn, r):
+        src = a[0]
+        clos = a[1] if len(a) > 1 else None
+        other = []
+
+        def step(s, p, acc, item):
+            if kind == "last":
+                return [(s, p, (acc[0] + 1, some(item)), False)]
+            arg = item
+            if kind == "find":
+                c = new_cell()
+                s.mem[c] = item
+                arg = Ptr(c, ())
+            res = []
+            for o in call_closure(i, fr, s, p, clos, [arg]):
+                if o.kind != "return":
+                    other.append(o)
+                    continue
+                v = o.value
+                if kind == "find_map":
+                    if not isinstance(v, Agg):
+                        raise Undecided("find_map closure result %r" % (v,))
+                    res.append((o.state, o.pc, (acc[0] + 1, v), v.variant == 1))
+                    continue
+                hit = some(usize(acc[0])) if kind == "position" else some(item)
+                if isinstance(v, W) and v.val is not None:
+                    res.append((o.state, o.pc, (acc[0] + 1, hit if v.val else NONE), bool(v.val)))
+                else:
+                    s2 = o.state.fork()
+                    if _feasible(i, o.pc + (v,)):
+                        res.append((o.state, o.pc + (v,), (acc[0] + 1, hit), True))
+                    if _feasible(i, o.pc + (b_not(v),)):
+                        res.append((s2, o.pc + (b_not(v),), (acc[0] + 1, NONE), False))
+            return res
+        return _drive(i, fr, st, pc, src, (0, NONE), step, lambda s, p, acc: acc[1]) + other
+    return f
+
+
+TABLE.update({
+    "std::iter::Iterator::fold": it_fold,
+    "std::iter::Iterator::for_each": it_for_each,
+    "std::iter::Iterator::position": it_search("position"),
+    "std::iter::Iterator::find": it_search("find"),
+    "std::iter::Iterator::find_map": it_search("find_map"),
+    "std::iter::Iterator::last": it_search("last"),
+})
+
+import re as _re_mod
+_ITER_IMPL_RE = _re_mod.compile(r"^<.* as (?:std|core)::iter::(Iterator|DoubleEndedIterator)>::(\w+)$")
+
+
+def _iter_generic_dispatch(path):
+    """a consumer specialised by an adaptor (e.g. <Filter<I,P> as Iterator>::fold) behaves like the provided method"""
+    m = _ITER_IMPL_RE.match(path)
+    if not m or m.group(2) in ("next", "next_back"):
+        return None
+    return TABLE.get("std::iter::%s::%s" % (m.group(1), m.group(2)))
 
 
 def _int_dispatch(path):
